@@ -253,8 +253,75 @@ fn oob_coords(w: u32, h: u32) -> Vec<(u32, u32)> {
     v
 }
 
+/// Out-of-bounds accesses made from a destructor WHILE ANOTHER PANIC UNWINDS (the application failed somewhere and its
+/// clean-up code touches the page it was drawing on): each one is refused with a panic of its own (caught right there),
+/// exactly as at any other time, and the page is left as it was.
+struct CleanUp<'a, 'p> {
+    page: &'a mut Page<'p>,
+    coords: Vec<(u32, u32)>,
+    tried: &'a std::cell::Cell<usize>,
+    refused: &'a std::cell::Cell<usize>,
+    was_unwinding: &'a std::cell::Cell<bool>,
+}
+
+impl Drop for CleanUp<'_, '_> {
+    fn drop(&mut self) {
+        self.was_unwinding.set(std::thread::panicking());
+        for &(x, y) in &self.coords {
+            let page = &mut *self.page;
+            for write in [false, true] {
+                self.tried.set(self.tried.get() + 1);
+                let r = std::panic::catch_unwind(std::panic::AssertUnwindSafe(|| {
+                    if write {
+                        page.set_pixel(x, y, true);
+                    } else {
+                        let _ = page.get_pixel(x, y);
+                    }
+                }));
+                if r.is_err() {
+                    self.refused.set(self.refused.get() + 1);
+                }
+            }
+        }
+    }
+}
+
+fn oob_while_unwinding(id: u8, w: u32, h: u32, rep: &mut Report) {
+    let coords = oob_coords(w, h);
+    if coords.is_empty() {
+        return;
+    }
+    let Ok(mut page) = catch(|| Page::new(PageId(id), w, h)) else { return };
+    if w > 0 && h > 0 {
+        page.set_pixel(w - 1, h - 1, true);
+        page.set_pixel(0, 0, true);
+    }
+    let before = page.as_bytes().to_vec();
+    let (tried, refused, unwinding) = (std::cell::Cell::new(0usize), std::cell::Cell::new(0usize), std::cell::Cell::new(false));
+    let n = coords.len();
+    let r = catch(std::panic::AssertUnwindSafe(|| {
+        let _clean_up = CleanUp { page: &mut page, coords, tried: &tried, refused: &refused, was_unwinding: &unwinding };
+        panic!("the application fails while it holds a page");
+    }));
+    rep.case(Some(mix(u64::from(w) << 32 | u64::from(h), 0xC06_0B)));
+    let sig = format!("oob-while-unwinding|{}x{}", w, h);
+    if r.is_ok() || !unwinding.get() || tried.get() != 2 * n {
+        rep.count("oob_while_unwinding_not_reached");
+        return;
+    }
+    rep.add("oob_accesses_made_while_a_panic_unwinds", tried.get() as u64);
+    if refused.get() != tried.get() {
+        rep.violation(MON, "oob_not_refused_while_unwinding", &sig, format!("{}x{} page: {} out-of-bounds accesses were made from a destructor while another panic was unwinding, only {} of them were refused with a panic", w, h, tried.get(), refused.get()), J::obj(vec![("workload", J::s("oob while unwinding")), ("width", J::Int(i128::from(w))), ("height", J::Int(i128::from(h)))]));
+    }
+    if page.as_bytes() != &before[..] {
+        let at = page.as_bytes().iter().zip(&before).position(|(a, b)| a != b);
+        rep.violation(MON, "oob_access_changed_the_page_while_unwinding", &sig, format!("{}x{} page: out-of-bounds accesses made from a destructor while another panic was unwinding changed the page (first at byte {:?})", w, h, at), J::obj(vec![("workload", J::s("oob while unwinding")), ("width", J::Int(i128::from(w))), ("height", J::Int(i128::from(h)))]));
+    }
+}
+
 /// Every in-bounds pixel set and cleared on a blank and on a full page; every OOB probe.
 fn exhaustive_size(id: u8, w: u32, h: u32, rep: &mut Report) {
+    oob_while_unwinding(id, w, h, rep);
     rep.case(Some(mix(u64::from(w) << 32 | u64::from(h), 0xC06)));
     rep.seen("sizes", u64::from(w) << 32 | u64::from(h));
     for start_full in [false, true] {
@@ -578,6 +645,7 @@ pub fn run(ctx: &Ctx) -> Outcome {
     let floors = vec![
         floor("every page asked for could be built (otherwise the bounds rules were not observed on those sizes)", report.get("pages_that_could_not_be_built") == 0, report.get("pages_that_could_not_be_built")),
         floor("pages whose dot count passes 2^32 (65537x65536, 65536x65537, (2^28+1)x16, ...), owned and borrowed, probed at the corners, past the 2^32-dot mark and at random", report.get("gigantic_pages_probed") == 12, report.get("gigantic_pages_probed")),
+        floor("out-of-bounds accesses made from a destructor while another panic unwinds (every size of the box)", report.get("oob_accesses_made_while_a_panic_unwinds") > 10_000 && report.get("oob_while_unwinding_not_reached") == 0, report.get("oob_accesses_made_while_a_panic_unwinds")),
         floor("every size of the box explored", report.get("box_sizes_done") == box_n as u64, report.get("box_sizes_done")),
         floor("tall and wide pages explored pixel by pixel", report.get("tall_and_wide_sizes_done") == n_tall as u64, report.get("tall_and_wide_sizes_done")),
         floor("all 11 real sizes explored", report.get("real_sizes_done") == 11, report.get("real_sizes_done")),
